@@ -4,6 +4,7 @@ pub mod encp;
 pub mod grpp;
 pub mod offp;
 pub mod plogp;
+pub mod selp;
 pub mod plogp2;
 
 use crate::run::{Job, JobResult, PropMeta, Violation};
@@ -18,6 +19,7 @@ pub fn plan(prop: &str, tier: &str) -> Option<(PropMeta, Vec<Job>)> {
         "C19" => Some(encp::plan(tier)),
         "C07" => Some(offp::plan(tier)),
         "C08" => Some(grpp::plan(tier)),
+        "C17" => Some(selp::plan(tier)),
         _ => None,
     }
 }
@@ -31,6 +33,7 @@ pub fn run_job(job: &Job) -> JobResult {
         "C19" => encp::run_job(job),
         "C07" => offp::run_job(job),
         "C08" => grpp::run_job(job),
+        "C17" => selp::run_job(job),
         p => JobResult { machinery_error: Some(format!("unknown property {p}")), ..Default::default() },
     }
 }
@@ -43,6 +46,7 @@ pub fn replay(prop: &str, replay: &Value) -> Vec<Violation> {
         Some("enc") => encp::replay(replay),
         Some("off") => offp::replay(replay),
         Some("grp") => grpp::replay(replay),
+        Some("sel") => selp::replay(replay),
         _ => Vec::new(),
     }
 }
